@@ -58,13 +58,19 @@ func (ps *PushContext) mergeDestinationRule(p *consolidatedDestRules, destRuleCo
 	if mdrList, exists := destRules[resolvedHost]; exists {
 		// `appendSeparately` determines if the incoming destination rule would become a new unique entry in the processedDestRules list.
 		appendSeparately := true
+		// mergedIntoEqual / mergedIntoNarrower: the incoming rule was folded into an entry with the same / a
+		// narrower exportTo. Folded only into narrower entries, it must also stay on its own, otherwise the
+		// namespaces it is exported to beyond those entries lose it.
+		mergedIntoEqual, mergedIntoNarrower := false, false
 		for _, mdr := range mdrList {
 			if features.EnableEnhancedDestinationRuleMerge {
 				if exportToSet.Equals(mdr.exportTo) {
 					appendSeparately = false
+					mergedIntoEqual = true
 				} else if len(mdr.exportTo) > 0 && exportToSet.SupersetOf(mdr.exportTo) {
 					// If the new exportTo is superset of existing, merge and also append as a standalone one
 					appendSeparately = true
+					mergedIntoNarrower = true
 				} else {
 					// can not merge with existing one, append as a standalone one
 					appendSeparately = true
@@ -135,6 +141,9 @@ func (ps *PushContext) mergeDestinationRule(p *consolidatedDestRules, destRuleCo
 				// user authored. Same precedence: user fields win.
 				mergedRule.TrafficPolicy = mergeBackendPolicyTrafficPolicy(rule.TrafficPolicy, mergedRule.TrafficPolicy)
 			}
+		}
+		if mergedIntoNarrower && !mergedIntoEqual {
+			appendSeparately = true
 		}
 		if appendSeparately {
 			destRules[resolvedHost] = append(destRules[resolvedHost], ConvertConsolidatedDestRule(&destRuleConfig, exportToSet))
